@@ -51,6 +51,13 @@ USER_FUNCS = {
 }
 
 
+import os as _os
+
+# probability of the SelectMany-inside-an-expression shapes per expression slot (a defect lived there - fixed in /repo;
+# VERIF_QGEN_FLAT raises it, which is how the repair was validated)
+P_FLAT = float(_os.environ.get("VERIF_QGEN_FLAT", "0.10"))
+
+
 class QGen:
     def __init__(self, rng, backend, max_depth=3):
         self.r = rng
@@ -202,7 +209,7 @@ class QGen:
         """numeric scalar of the event (aggregates, First, singleton access)"""
         r = self.r
         k = r.random()
-        if depth > 0 and r.random() < 0.04:
+        if depth > 0 and r.random() < P_FLAT:
             fs, kind, et, nk = self.flat_seq(evar, depth)
             agg = r.choice(["Count", "Sum", "Max", "First"])
             self.shape.append("flat" + agg)
@@ -262,7 +269,7 @@ class QGen:
         if k < 0.35:
             t, _ = self.evt_num(evar, depth)
             return t
-        if depth > 0 and r.random() < 0.04:
+        if depth > 0 and r.random() < P_FLAT:
             fs, kind, et, nk = self.flat_seq(evar, depth)
             self.shape.append("col1d_flat")
             if kind == "num":
